@@ -42,6 +42,39 @@ def match_known(known, obs):
             return e
     return None
 
+def _code_ok(spec, code):
+    """does a second_codes spec of a known finding allow this single code?"""
+    if spec is None: return True
+    if isinstance(spec, dict):
+        if 'all_re' in spec: return re.search(spec['all_re'], code) is not None
+        for k in ('equals_set', 'nonempty_subset_of', 'subset_of'):
+            if k in spec: return code in spec[k]
+        if 'intersects' in spec: return True
+    return False
+
+def match_known_combination(known, obs, key='second_codes'):
+    """a case with SEVERAL independent damages may show the symptoms of several known findings at once. It is known if every observed code is allowed by some known finding whose other
+    conditions (damaged area, configuration) hold for this case, and every such finding that demands specific codes ('intersects') gets one. Returns the list of entries or None."""
+    codes = obs.get(key) or []
+    if not codes or len(obs.get('applied') or []) < 2: return None
+    cands = []
+    for e in known:
+        if e.get('status') != 'known': continue
+        sig = e.get('signature') or {}
+        if sig and all(_match_spec(spec, obs.get(k)) for k, spec in sig.items() if k != key): cands.append(e)
+    used = []
+    for c in codes:
+        hit = [e for e in cands if _code_ok((e.get('signature') or {}).get(key), c)]
+        if not hit: return None
+        for e in hit:
+            if e not in used: used.append(e)
+    for e in used:
+        spec = (e.get('signature') or {}).get(key)
+        if isinstance(spec, dict) and 'intersects' in spec and not set(codes) & set(spec['intersects']): used = [x for x in used if x is not e]
+    for c in codes:
+        if not any(_code_ok((e.get('signature') or {}).get(key), c) for e in used): return None
+    return used or None
+
 class Result:
     """Mergeable per-worker result."""
     def __init__(self):
@@ -88,7 +121,11 @@ class Ctx:
     # ------------------------------------------------------------------
     def classify(self, obs):
         """returns known entry or None"""
-        return match_known(self.known, obs)
+        e = match_known(self.known, obs)
+        if e is None and self.prop == 'C01':
+            combo = match_known_combination(self.known, obs)
+            if combo: obs['known_combination'] = [x['id'] for x in combo]; return combo[0]
+        return e
     def save_violation(self, obs, case):
         h = stable_hash([obs, case])
         p = os.path.join(self.outdir, h + '.json')
